@@ -1,12 +1,12 @@
 // replay for property C01
 // refuted obligation (Kani harness): algorithm::kalman::verif::c01_p_steer_offset_steps_within_thresholds  [/verif/kani/ntp_proto/algorithm/kalman/mod.rs]
-// failed checks: assertion failed: x == raw(NtpDuration::from_seconds(change)) @ /verif/kani/ntp_proto/algorithm/kalman/mod.rs:215; assertion failed: spec_within(&sc.startup_step_panic_threshold, x) @ /verif/kani/ntp_proto/algorithm/kalman/mod.rs:217; assertion failed: spec_within(&sc.single_step_panic_threshold, x) @ /verif/kani/ntp_proto/algorithm/kalman/mod.rs:219; assertion failed: raw(c.timedata.accumulated_steps) == before_acc.saturating_add(abs) @ /verif/kani/ntp_proto/algorithm/kalman/mod.rs:221
+// failed checks: assertion failed: spec_within(&sc.single_step_panic_threshold, x) @ /verif/kani/ntp_proto/algorithm/kalman/mod.rs:222
 // re-run natively against the real code:  /verif/check C01 --replay /verif/replays/C01-c01_p_steer_offset_steps_within_thresholds.rs
 //meta {"property": "C01", "crate_dir": "ntp-proto", "harness": "algorithm::kalman::verif::c01_p_steer_offset_steps_within_thresholds", "harness_file": "/verif/kani/ntp_proto/algorithm/kalman/mod.rs", "features": [], "transform": true, "c_ffi": false}
-// native replay: reproduced
+// native replay: not-run
 /// Test generated for harness `algorithm::kalman::verif::c01_p_steer_offset_steps_within_thresholds` 
 ///
-/// Check for `assertion`: "assertion failed: x == raw(NtpDuration::from_seconds(change))"
+/// Check for `assertion`: "assertion failed: spec_within(&sc.single_step_panic_threshold, x)"
 ///
 /// # Warning
 ///
@@ -20,48 +20,14 @@
 /// logic.
 
 #[test]
-fn kani_concrete_playback_c01_p_steer_offset_steps_within_thresholds_4531164498276055575() {
+fn kani_concrete_playback_c01_p_steer_offset_steps_within_thresholds_3639576329169415144() {
     let concrete_vals: Vec<Vec<u8>> = vec![
         // 0ul
         vec![0, 0, 0, 0, 0, 0, 0, 0],
-        // 1
-        vec![1],
-        // 144115188075855871
-        vec![255, 255, 255, 255, 255, 255, 255, 1],
         // 0
         vec![0],
         // 1
         vec![1],
-        // 9223372036854775807
-        vec![255, 255, 255, 255, 255, 255, 255, 127],
-        // 0
-        vec![0],
-        // 1
-        vec![1],
-        // 9223372036854775807
-        vec![255, 255, 255, 255, 255, 255, 255, 127],
-        // 0
-        vec![0],
-        // 0
-        vec![0],
-        // 9223372036854775807
-        vec![255, 255, 255, 255, 255, 255, 255, 127],
-        // 0
-        vec![0, 0, 0, 0, 0, 0, 0, 0],
-        // -1.404448e+306
-        vec![255, 255, 255, 255, 255, 255, 127, 255],
-        // 3.893879e-308
-        vec![255, 255, 127, 0, 0, 0, 28, 0],
-        // 1
-        vec![1],
-        // 4.450148e-308
-        vec![255, 255, 255, 255, 255, 255, 31, 0],
-        // 1.780059e-307
-        vec![255, 255, 255, 190, 255, 255, 63, 0],
-        // -1.911324e-298
-        vec![0, 0, 6, 0, 0, 0, 32, 130],
-        // -1
-        vec![255, 255, 255, 255, 255, 255, 255, 255],
         // 0
         vec![0, 0, 0, 0, 0, 0, 0, 0],
         // 0
@@ -75,18 +41,50 @@ fn kani_concrete_playback_c01_p_steer_offset_steps_within_thresholds_45311644982
         // 0
         vec![0],
         // 0
+        vec![0, 0, 0, 0, 0, 0, 0, 0],
+        // 0
+        vec![0, 0, 0, 0, 0, 0, 0, 0],
+        // -9
+        vec![5, 0, 0, 0, 0, 0, 34, 192],
+        // 7.458341e-155
+        vec![0, 0, 0, 0, 0, 0, 240, 31],
+        // 0
+        vec![0],
+        // 2.172924e-311
+        vec![255, 255, 255, 255, 255, 3, 0, 0],
+        // -4.019910e-310
+        vec![240, 239, 3, 2, 0, 74, 0, 128],
+        // -3.940201e+115
+        vec![0, 0, 0, 0, 0, 0, 240, 215],
+        // -9223372036854775808
+        vec![0, 0, 0, 0, 0, 0, 0, 128],
+        // 0
+        vec![0],
+        // 0
         vec![0],
         // 0
         vec![0],
         // 0
         vec![0],
-        // 1
-        vec![1, 0, 0, 0, 0, 0, 0, 0],
+        // 0
+        vec![0],
+        // 0
+        vec![0],
+        // 0
+        vec![0],
+        // 0
+        vec![0],
     ];
     kani::concrete_playback_run(concrete_vals, c01_p_steer_offset_steps_within_thresholds);
 }
 
 /* native run output:
-panicked at library/kani/src/concrete_playback.rs:66:5:
-assertion `left == right` failed: Expected 1 bytes in the following det vals vec
+error: unexpected argument '--no-assertion-reach-checks' found
+
+  tip: to pass '--no-assertion-reach-checks' as a value, use '-- --no-assertion-reach-checks'
+
+Usage: cargo-kani playback --unstable <UNSTABLE_FEATURE> [-- [TEST_ARGS]...]
+
+For more information, try '--help'.
+
 */
